@@ -161,5 +161,70 @@ Transpose(a, perm) ==
   IN Mk(Gather(a.dims, perm), Gather(a.kinds, perm), Gather(a.labs, perm), Gather(a.aattrs, perm),
         a.dtype, a.attrs, LAMBDA c : At(a, [i \in 1..Len(perm) |-> c[inv(i)]]))
 
+
+\* InsertAt(s, pos, x) and RemoveAt(s, pos) come from SequencesExt (x becomes element pos)
+
+SwapAxes(a, i, j) == Transpose(a, [k \in 1..NDim(a) |-> IF k = i THEN j ELSE IF k = j THEN i ELSE k])
+
+\* numpy.rollaxis: axis (1-based here) is moved so that it lies before 0-based position start (0..n)
+RollPerm(n, axis, start) ==
+  LET st == IF start > axis - 1 THEN start - 1 ELSE start
+  IN InsertAt(RemoveAt([k \in 1..n |-> k], axis), st + 1, axis)
+RollAxis(a, axis, start) == Transpose(a, RollPerm(NDim(a), axis, start))
+
+\* newaxis: pos0 is the 0-based insertion position (0..n); vals = <<>>: a single label None (kind "n", label 0)
+NewAxis(a, name, pos0, vals) ==
+  LET p == pos0 + 1
+  IN Mk(InsertAt(a.dims, p, name), InsertAt(a.kinds, p, IF vals = <<>> THEN "n" ELSE "i"),
+        InsertAt(a.labs, p, IF vals = <<>> THEN <<0>> ELSE vals), InsertAt(a.aattrs, p, 0),
+        a.dtype, a.attrs, LAMBDA c : At(a, RemoveAt(c, p)))
+
+\* squeeze: which = 0 removes every singleton dimension, which = i only dimension i (if it is a singleton)
+Squeeze(a, which) ==
+  LET kept == SelectSeq(Idx(a.dims), LAMBDA i : ~(Len(a.labs[i]) = 1 /\ (which = 0 \/ which = i)))
+      rank(i) == Cardinality({k \in 1..i : k \in Rng(kept)})
+  IN Mk(Gather(a.dims, kept), Gather(a.kinds, kept), Gather(a.labs, kept), Gather(a.aattrs, kept),
+        a.dtype, a.attrs, LAMBDA c : At(a, [i \in 1..NDim(a) |-> IF i \in Rng(kept) THEN c[rank(i)] ELSE 1]))
+
+\* repeat a singleton dimension d along the labels vals
+Repeat(a, d, vals, kind, aat) ==
+  Mk(a.dims, [a.kinds EXCEPT ![d] = kind], [a.labs EXCEPT ![d] = vals], [a.aattrs EXCEPT ![d] = aat],
+     a.dtype, a.attrs, LAMBDA c : At(a, [c EXCEPT ![d] = 1]))
+
+\* broadcast onto target axes (tdims, tkinds, tlabs, taattrs); requires dims(a) \subseteq tdims and that
+\* non-singleton dimensions of a carry the target's labels
+Broadcast(a, tdims, tkinds, tlabs, taattrs) ==
+  LET has(j) == HasDim(a, tdims[j])
+      src(j) == DimPos(a, tdims[j])
+      own(j) == has(j) /\ (Len(a.labs[src(j)]) > 1 \/ Len(tlabs[j]) = 1)      \* keeps its own axis
+  IN Mk(tdims,
+        [j \in 1..Len(tdims) |-> IF own(j) THEN a.kinds[src(j)] ELSE tkinds[j]],
+        [j \in 1..Len(tdims) |-> IF own(j) THEN a.labs[src(j)] ELSE tlabs[j]],
+        [j \in 1..Len(tdims) |-> IF own(j) THEN a.aattrs[src(j)] ELSE taattrs[j]],
+        a.dtype, a.attrs,
+        LAMBDA c : At(a, [i \in 1..NDim(a) |->
+                            IF Len(a.labs[i]) = 1 THEN 1
+                            ELSE c[CHOOSE j \in 1..Len(tdims) : tdims[j] = a.dims[i]]]))
+
+\* dimension names of several arrays in order of first appearance
+RECURSIVE AllDims(_)
+AllDims(arrs) == IF arrs = <<>> THEN <<>>
+                 ELSE LET rest == AllDims(SubSeq(arrs, 1, Len(arrs) - 1))
+                          last == arrs[Len(arrs)]
+                      IN rest \o SelectSeq(last.dims, LAMBDA d : \A k \in 1..Len(rest) : rest[k] # d)
+\* the array (index) that provides the common axis of dimension d: first with size > 1, else first having it
+Provider(arrs, d) ==
+  LET having == SelectSeq(Idx(arrs), LAMBDA i : HasDim(arrs[i], d))
+      big == SelectSeq(having, LAMBDA i : Len(arrs[i].labs[DimPos(arrs[i], d)]) > 1)
+  IN IF big # <<>> THEN big[1] ELSE having[1]
+BroadcastArrays(arrs) ==
+  LET dims == AllDims(arrs)
+      prov(j) == arrs[Provider(arrs, dims[j])]
+      pp(j) == DimPos(prov(j), dims[j])
+      tk == [j \in 1..Len(dims) |-> prov(j).kinds[pp(j)]]
+      tl == [j \in 1..Len(dims) |-> prov(j).labs[pp(j)]]
+      ta == [j \in 1..Len(dims) |-> prov(j).aattrs[pp(j)]]
+  IN [i \in 1..Len(arrs) |-> Broadcast(arrs[i], dims, tk, tl, ta)]
+
 IsPerm(p, n) == Len(p) = n /\ Rng(p) = 1..n
 =============================================================================
